@@ -47,12 +47,58 @@ package mhprimary
 //@   guarded_by file, writer, fileNum, length : flushLock
 //@   guarded_by gc : gcMutex
 
-//@ func (cp *MultihashPrimary) flushBlock(key []byte, value []byte) (work types.Work, err error)  property C16
-//@   holds cp.flushLock
-//@   modifies cp.file, cp.fileNum, cp.length, heap("G:os.File.$open")
+// Object invariant of an open primary.
+//@ type MultihashPrimary
+//@   invariant @handles self.file != nil && self.writer != nil
+//@   invariant @config self.maxFileSize > 0 && self.maxFileSize <= (1 << 30) && self.length < (1 << 33)
+//@   invariant @gc-channels self.gc != nil && !self.closed ==> self.gc.stop != nil && !closed(self.gc.stop)
 
-//@ func (mp *MultihashPrimary) Close() (err error)  property C16
+//@ macro PS(mp) = as(primary.PrimaryStorage, mp)
+
+// flushBlock (C01 mechanism 3, C07): a record is written at roll(length, fileNum): in the next
+// file at offset 0 when the current file has reached the limit, else at the current end; every
+// record therefore starts below the limit.
+//@ func (cp *MultihashPrimary) flushBlock(key []byte, value []byte) (work types.Work, err error)  property C01 C07
+//@   holds cp.flushLock
+//@   preserves cp
+//@   requires len(key) + len(value) < (1 << 31)
+//@   modifies cp.file, cp.fileNum, cp.length, cp.file.$open
+//@   ensures @file-fresh cp.file == old(cp.file) || fresh(cp.file)
+//@   ensures @roll err == nil ==> (old(cp.length) >= cp.maxFileSize ==> cp.fileNum == wrapu32(old(cp.fileNum) + 1) && cp.length == len(key) + len(value) + 4) && (old(cp.length) < cp.maxFileSize ==> cp.fileNum == old(cp.fileNum) && cp.length == old(cp.length) + len(key) + len(value) + 4)
+//@   ensures @start-below-limit err == nil ==> cp.length - (len(key) + len(value) + 4) < cp.maxFileSize
+//@   ensures @work err == nil ==> work == len(key) + len(value) + 4
+
+//@ func (gc *primaryGC) close()  property C17
+//@   requires gc.stop != nil && !closed(gc.stop)
+//@   modifies chan(gc.stop), chan(gc.done)
+//@   ensures @signalled-and-waited closed(gc.stop) && waited(gc.done)
+
+// Flush: concrete effects; the ghost $pending flag of the PrimaryStorage view is abstract (GAP-2).
+//@ func (cp *MultihashPrimary) Flush() (work types.Work, err error)  property C03
+//@   preserves cp
+//@   requires @record-size-limit forall i int :: 0 <= i && i < len(cp.nextPool.blocks) ==> len(cp.nextPool.blocks[i].key) + len(cp.nextPool.blocks[i].value) < (1 << 31)
+//@   modifies cp.curPool, cp.nextPool, cp.outstandingWork, cp.file, cp.fileNum, cp.length, cp.file.$open
+//@   abstract gap GAP-2: pools+files implement the ghost primary records
+//@   abstract modifies PS(cp).$pending
+//@   abstract ensures err == nil ==> !PS(cp).$pending
+//@   abstract ensures old(!PS(cp).$pending) ==> !PS(cp).$pending
+//@   ensures @file-fresh cp.file == old(cp.file) || fresh(cp.file)
+//@   loop 0 invariant held(cp.flushLock) && inv(cp) && (cp.file == old(cp.file) || fresh(cp.file)) && cp.curPool.blocks == old(cp.nextPool.blocks) && 0 <= $idx && $idx <= len(cp.curPool.blocks)
+//@   loop 0 invariant forall i int :: 0 <= i && i < len(cp.curPool.blocks) ==> len(cp.curPool.blocks[i].key) + len(cp.curPool.blocks[i].value) < (1 << 31)
+
+// Close (C02, C17): stop the collector and wait for it before flushing and closing the file;
+// a second Close does nothing.
+//@ func (mp *MultihashPrimary) Close() (err error)  property C02 C17
 //@   exclusive Close runs after all users of the primary have stopped (Store.Close contract, C17)
+//@   preserves mp
+//@   requires @record-size-limit forall i int :: 0 <= i && i < len(mp.nextPool.blocks) ==> len(mp.nextPool.blocks[i].key) + len(mp.nextPool.blocks[i].value) < (1 << 31)
+//@   modifies fp(FC), mp.closed, chan(mp.gc.stop), chan(mp.gc.done), mp.curPool, mp.nextPool, mp.outstandingWork, mp.file, mp.fileNum, mp.length, PS(mp).$pending
+//@   assert at before call mhprimary.MultihashPrimary.Flush#0: @C17-stop-before-flush old(mp.gc) != nil ==> closed(mp.gc.stop) && waited(mp.gc.done)
+//@   assert at before call (*os.File).Close: @C17-flush-before-close event("call:mhprimary.MultihashPrimary.Flush") == 1
+//@   ensures @C17-file-closed !mp.file.$open || old(mp.closed)
+//@   ensures @C02-flushed err == nil && !old(mp.closed) ==> !PS(mp).$pending
+//@   ensures @C02-idempotent old(mp.closed) ==> err == nil && event("call:mhprimary.MultihashPrimary.Flush") == 0 && event("call:(*os.File).Close") == 0
+//@   ensures @closed-flag mp.closed
 
 //@ func (mp *MultihashPrimary) NewIndexRemapper() (r *IndexRemapper, err error)  property C16
 //@   exclusive only called from index.Open while the store is being opened, before any goroutine is started
